@@ -101,6 +101,10 @@ func (f *Frame) call(in ssa.Instruction, cc *ssa.CallCommon, st *State) []Term {
 		if cl, ok := c.eng.closures[fv[0].S]; ok {
 			return f.inline(cl.fn, args, cl.binds, st, in)
 		}
+		if p, ok := cc.Value.(*ssa.Parameter); ok {
+			// call-site clauses may name a function-valued parameter
+			f.callsiteObligations(in, p.Name(), p.Name(), nil, args, st)
+		}
 		res := f.opaqueCall(in, cc, nil, args, st)
 		// a function-valued parameter is recorded under the parameter's name
 		if p, ok := cc.Value.(*ssa.Parameter); ok && !st.dead() {
@@ -141,12 +145,7 @@ func (f *Frame) call(in ssa.Instruction, cc *ssa.CallCommon, st *State) []Term {
 			return []Term{c.fresh("ghostres", SInt)}
 		}
 		if st.ghostAbsentUnknown(key) {
-			v := c.fresh("ghostunk", SBool)
-			if st.Ghost == nil {
-				st.Ghost = map[string]Term{}
-			}
-			st.Ghost[key] = v
-			return []Term{v}
+			return []Term{st.ghostUnknownVal(c, key)}
 		}
 		return []Term{TFalse}
 	case "__calledPrefix":
@@ -807,8 +806,8 @@ func (f *Frame) applyContract(in ssa.Instruction, cc *ssa.CallCommon, callee *ss
 	all := append(append([][]Term{}, args...), resVals...)
 	// ghost call records in a callee's postcondition speak about the callee's
 	// own calls, which the caller cannot see: they are unknown here
-	savedGhost, savedUnk, savedNames := st.Ghost, st.GhostUnknown, st.GhostLoopNames
-	st.Ghost, st.GhostUnknown, st.GhostLoopNames = map[string]Term{}, true, nil
+	savedGhost, savedUnk, savedNames, savedMemo := st.Ghost, st.GhostUnknown, st.GhostLoopNames, st.GhostMemo
+	st.Ghost, st.GhostUnknown, st.GhostLoopNames, st.GhostMemo = map[string]Term{}, true, nil, map[string]Term{}
 	for _, cl := range blk.Post {
 		pa := all
 		if cl.RecvOnly {
@@ -820,7 +819,7 @@ func (f *Frame) applyContract(in ssa.Instruction, cc *ssa.CallCommon, callee *ss
 		t := c.evalSpecFn(cl.Fn, pa, st, old, f)[0]
 		st.assume(c, t)
 	}
-	st.Ghost, st.GhostUnknown, st.GhostLoopNames = savedGhost, savedUnk, savedNames
+	st.Ghost, st.GhostUnknown, st.GhostLoopNames, st.GhostMemo = savedGhost, savedUnk, savedNames, savedMemo
 	if blk.Flags["trusted"] || blk.Flags["assume-contract"] {
 		c.note("assumed", "assumed contract of "+blk.QualName())
 	}
@@ -1199,8 +1198,8 @@ func (f *Frame) invoke(in ssa.Instruction, cc *ssa.CallCommon, st *State) []Term
 			off += n
 		}
 		all := append(append([][]Term{}, ic.args...), resVals...)
-		savedGhost, savedUnk, savedNames := st.Ghost, st.GhostUnknown, st.GhostLoopNames
-		st.Ghost, st.GhostUnknown, st.GhostLoopNames = map[string]Term{}, true, nil
+		savedGhost, savedUnk, savedNames, savedMemo := st.Ghost, st.GhostUnknown, st.GhostLoopNames, st.GhostMemo
+		st.Ghost, st.GhostUnknown, st.GhostLoopNames, st.GhostMemo = map[string]Term{}, true, nil, map[string]Term{}
 		for _, cl := range ic.blk.Post {
 			pa := all
 			if cl.RecvOnly {
@@ -1209,7 +1208,7 @@ func (f *Frame) invoke(in ssa.Instruction, cc *ssa.CallCommon, st *State) []Term
 			t := c.evalSpecFn(cl.Fn, pa, st, old, f)[0]
 			st.assume(c, Implies(ic.cond, t))
 		}
-		st.Ghost, st.GhostUnknown, st.GhostLoopNames = savedGhost, savedUnk, savedNames
+		st.Ghost, st.GhostUnknown, st.GhostLoopNames, st.GhostMemo = savedGhost, savedUnk, savedNames, savedMemo
 		if ic.blk.Flags["trusted"] || ic.blk.Flags["assume-contract"] {
 			c.note("assumed", "assumed contract of "+ic.blk.QualName())
 		}
